@@ -277,6 +277,32 @@ class CallMixin:
                 out.append((s, Raise(self.new_exception(s, "ValueError"))))
         return out
 
+    def m_insert(self, st, node, recv, args, kwargs):
+        """list.insert(i, x): x lands before position clamp(i) (negative i counts from the end), as the language reference says."""
+        seq = st.get("list", recv.t)
+        if args[0].kind != "int":
+            raise Unsupported(".insert with a non-integer position")
+        i, n = args[0].t, z3.Length(seq)
+        pos = z3.If(i >= 0, z3.If(i > n, n, i), z3.If(n + i < 0, z3.IntVal(0), n + i))
+        st.put("list", recv.t, z3.Concat(z3.SubSeq(seq, 0, pos), z3.Unit(self.to_ref(st, args[1])), z3.SubSeq(seq, pos, n - pos)))
+        return [(st, VNONE)]
+
+    def m_update(self, st, node, recv, args, kwargs):
+        """dict.update(other dict): every key of the other dict is set to the other's value (insertion order of new keys: unconstrained)."""
+        if recv.py != "dict" or len(args) != 1 or kwargs or args[0].kind != "ref" or args[0].py != "dict":
+            raise Unsupported(".update on %r with %r" % (recv, args))
+        d, o = recv.t, args[0].t
+        dom, val, odom, oval = st.get("ddom", d), st.get("dval", d), st.get("ddom", o), st.get("dval", o)
+        ndom, nval = fresh("ddom_after_update", dom.sort()), fresh("dval_after_update", val.sort())
+        k = z3.Int("k!upd")
+        from .base import qforall
+        st.assume(qforall([k], z3.Select(ndom, k) == z3.Or(z3.Select(dom, k), z3.Select(odom, k)), patterns=[z3.Select(ndom, k)]),
+                  qforall([k], z3.Select(nval, k) == z3.If(z3.Select(odom, k), z3.Select(oval, k), z3.Select(val, k)), patterns=[z3.Select(nval, k)]))
+        st.put("ddom", d, ndom)
+        st.put("dval", d, nval)
+        st.put("dord", d, fresh("dord_after_update", SeqI))
+        return [(st, VNONE)]
+
     def m_copy(self, st, node, recv, args, kwargs):
         if recv.py == "dict":
             return [(st, self.new_dict(st, dom=st.get("ddom", recv.t), val=st.get("dval", recv.t), order=st.get("dord", recv.t)))]
